@@ -7,10 +7,16 @@ From Coq Require Import List NArith ZArith Bool.
 Import ListNotations.
 From JR Require Import Stream Stream_Proofs.
 From JRGen Require Extracted.
+From JR Require Skeletons.
 
 Theorem c07_source_facts :
   Extracted.chValue = "xrpc.ch.val"%string /\ Extracted.chClose = "xrpc.ch.close"%string /\
-  Extracted.guard_val_len = true /\ Extracted.guard_close_len = true.
+  Extracted.guard_val_len = true /\ Extracted.guard_close_len = true /\
+  (* the client's sink pump waits on exactly three things: the subscription's context, the next accepted value, the
+     consumer taking the oldest buffered one; what is buffered leaves only through the third (ConsRecv) or the first *)
+  Extracted.outchan_select_cases =
+    ["reflect.SelectRecv reflect.ValueOf(ctx.Done())"; "reflect.SelectRecv reflect.ValueOf(incoming)"; "reflect.SelectSend ch";
+     "case 0"; "case 1"; "case 2"]%string.
 Proof. repeat split; reflexivity. Qed.
 
 (* same order, each exactly once, nothing foreign: at every moment what the consumer has received is a prefix of
@@ -49,6 +55,16 @@ Example c07_ex : exists s,
            ConsRecv 7; OchClose; ChVal; SinkVal 8; ChClose; ConsRecv 8; ConsClosed]%Z = Some s /\ cons s = [7; 8]%Z /\ how s = ByServer.
 Proof. eexists. split; [vm_compute; reflexivity|split; reflexivity]. Qed.
 
+(* the functions this property's model is an abstraction of still have the control / locking / shared-state skeleton the
+   model was written against (Skeletons.v, by hand; Extracted.v, regenerated from /repo) *)
+Theorem c07_code_skeletons :
+  JRGen.Extracted.effects_handleOutChans = JR.Skeletons.handleOutChans /\
+  JRGen.Extracted.effects_handleChanMessage = JR.Skeletons.handleChanMessage /\
+  JRGen.Extracted.effects_handleChanClose = JR.Skeletons.handleChanClose /\
+  JRGen.Extracted.effects_makeOutChan = JR.Skeletons.makeOutChan.
+Proof. repeat split; reflexivity. Qed.
+
+Print Assumptions c07_code_skeletons.
 Print Assumptions c07_source_facts.
 Print Assumptions c07_prefix_order.
 Print Assumptions c07_lossless_on_close.
